@@ -156,11 +156,11 @@ theorem absFind_insert (m : List (Key × Nat)) (rr : RR) (now : Nat) (k : Key) :
   · simp [ht]
 
 /-- the simulation relation: the cache stores exactly the abstract map -/
-def Sim (c : PCache) (m : List (Key × Nat)) : Prop :=
+def CacheSim (c : PCache) (m : List (Key × Nat)) : Prop :=
   ∀ k : Key, storedExpiry c k.name k.rtype k.fields = absFind m k
 
-theorem Sim.insert {c : PCache} {m : List (Key × Nat)} (hs : Sim c m) (h : Inv c) (rr : RR) (now : Nat) :
-    Sim (sharedInsert c rr now) (absInsert m rr now) := by
+theorem CacheSim.insert {c : PCache} {m : List (Key × Nat)} (hs : CacheSim c m) (h : Inv c) (rr : RR) (now : Nat) :
+    CacheSim (sharedInsert c rr now) (absInsert m rr now) := by
   intro k
   rw [absFind_insert]
   unfold sharedInsert
@@ -175,15 +175,15 @@ theorem Sim.insert {c : PCache} {m : List (Key × Nat)} (hs : Sim c m) (h : Inv 
     simp only [this]
   · simp only [ht, ↓reduceIte, false_and]; exact hs k
 
-theorem Sim.insertAll {c : PCache} {m : List (Key × Nat)} (hs : Sim c m) (h : Inv c) (rrs : List RR) (now : Nat) :
-    Sim (sharedInsertAll c rrs now) (rrs.foldl (fun m rr => absInsert m rr now) m) := by
+theorem CacheSim.insertAll {c : PCache} {m : List (Key × Nat)} (hs : CacheSim c m) (h : Inv c) (rrs : List RR) (now : Nat) :
+    CacheSim (sharedInsertAll c rrs now) (rrs.foldl (fun m rr => absInsert m rr now) m) := by
   unfold sharedInsertAll
   induction rrs generalizing c m with
   | nil => exact hs
   | cons rr rrs ih => exact ih (hs.insert h rr now) (h.sharedInsert rr now)
 
-theorem Sim.step {c : PCache} {m : List (Key × Nat)} (hs : Sim c m) (h : Inv c) (op : CacheOp) :
-    Sim (op.apply c) (absStep (op.apply c) m op) := by
+theorem CacheSim.step {c : PCache} {m : List (Key × Nat)} (hs : CacheSim c m) (h : Inv c) (op : CacheOp) :
+    CacheSim (op.apply c) (absStep (op.apply c) m op) := by
   cases op with
   | insert rr now => exact hs.insert h rr now
   | insertAll rrs now => exact hs.insertAll h rrs now
@@ -246,11 +246,11 @@ theorem Sim.step {c : PCache} {m : List (Key × Nat)} (hs : Sim c m) (h : Inv c)
         simp [this]
       rw [this]; simp [hxe]
 
-theorem Sim.new (d : Nat) : Sim (PCache.new d) [] := by
+theorem CacheSim.new (d : Nat) : CacheSim (PCache.new d) [] := by
   intro k; rfl
 
-theorem Sim.runBoth {c : PCache} {m : List (Key × Nat)} (hs : Sim c m) (h : Inv c) (ops : List CacheOp) :
-    Sim (runBoth c m ops).1 (runBoth c m ops).2 := by
+theorem CacheSim.runBoth {c : PCache} {m : List (Key × Nat)} (hs : CacheSim c m) (h : Inv c) (ops : List CacheOp) :
+    CacheSim (runBoth c m ops).1 (runBoth c m ops).2 := by
   induction ops generalizing c m with
   | nil => exact hs
   | cons op ops ih => exact ih (hs.step h op) (h.apply op)
